@@ -288,7 +288,8 @@ class Session:
         if self.closed:
             return
         self.closed = True
-        self.mine = _children() - self.before
+        others = set().union(*[s.mine for s in SESSIONS if s is not self]) if len(SESSIONS) > 1 else set()
+        self.mine = _children() - self.before - others
 
         def work():
             done = threading.Event()
@@ -333,7 +334,9 @@ class Session:
 
 def close_all() -> None:
     """Close every session of this process and kill any descendant process left (called in finally / atexit)."""
-    for session in list(SESSIONS):
+    # sessions already shutting down in the background first: the process set of a session still open is computed
+    # as "everything started since it was created" and must not include engines that are half way down
+    for session in sorted(SESSIONS, key=lambda s: not s.closed):
         try:
             if session.closed:
                 session.join()
